@@ -233,6 +233,34 @@ Proof.
 Qed.
 Print Assumptions C07_no_cross_dispatch_refuted.
 
+(** SECOND REFUTATION (finding D21): [set_dispatch] keeps the cache object, so the hypothesis
+    "same dispatch expression" of [C07_no_cross_dispatch_partial] is needed too: a dataset without
+    dispatch is evaluated on {K10: 1} (stored under [K10=1]); set_dispatch(Option(K20, default 5))
+    and @overload(5); the same dictionary now has dispatch value 5, registered — the old value is
+    served.  Both dispatch expressions are outside the D19 zone. *)
+Theorem C07_no_cross_dispatch_set_dispatch_refuted :
+  let h := [ONew 1 DMissing (Some (IFun 1)) None;
+            OEval 1 [(10, 1)];
+            OSetDispatch 1 (DKeyDefault 20 5);
+            OOverload 1 [5] 2 2;
+            OEval 1 [(10, 1)]; OEval 1 [(10, 2)]] in
+  exists s e1 e2 e3 e4 ov,
+    c_run tb cfg_now 10 h (@empty_state val) =
+      Some ([ObOk; ObVal (VTag 1 [(10, 1)]) false; ObOk; ObOk; ObVal (VTag 1 [(10, 1)]) true;
+             ObVal (VTag 2 [(10, 2)]) false], s) /\
+    st_trace s = [e4; e3; e2; e1] /\ e_hit e2 = true /\ e_hit e1 = false /\ e_fp e1 = e_fp e2 /\
+    e_disp e1 = DMissing /\ e_disp e2 = DKeyDefault 20 5 /\
+    dispatch_safe (e_disp e1) = true /\ dispatch_safe (e_disp e2) = true /\
+    e_dres e1 = DVal missing_alias /\ e_dres e2 = DVal 5 /\
+    ovl_of s 1 = Some ov /\ pick ov [(10, 1)] = Some (IDs 2).
+Proof.
+  simpl. eexists. eexists. eexists. eexists. eexists. eexists.
+  split; [vm_compute; reflexivity|].
+  split; [vm_compute; reflexivity|].
+  vm_compute. repeat split.
+Qed.
+Print Assumptions C07_no_cross_dispatch_set_dispatch_refuted.
+
 (** OLD CODE (before fix: b8adbdb, finding D11): the pre-fix registration loop, on an interface
     with members 101 (abstract, first in the class dictionary) and 102 (abstract, annotated),
     given an implementation providing only 101: rejected AND 101 registered.  The code as it is
